@@ -384,6 +384,121 @@ var ruleD7 = &Rule{
 // ---------------------------------------------------------------------------------
 // H4 memoised sub-plans
 
+type memoSite struct {
+	fn    *ssa.Function          // the function holding the memo
+	call  *ssa.Call              // the sub-planner call whose result is memoised
+	reach map[*ssa.Function]bool // functions that may run below that call
+}
+
+// memoSites: on SSA, a store to a cell (a planner field, or the target of a pointer kept in one) that cannot be reached from the
+// branch on which that same cell was found non-nil, and the sub-planner calls that run only on the empty-memo side.
+func (c *Ctx) memoSites() []memoSite {
+	if v, ok := c.memo["memoSites"]; ok {
+		return v.([]memoSite)
+	}
+	g := c.CG()
+	var out []memoSite
+	for _, sf := range liveModuleFuncs(c, transpilerScopes...) {
+		if sf.Signature.Recv() == nil && sf.Parent() == nil {
+			continue
+		}
+		for _, sb := range sf.Blocks {
+			for _, sins := range sb.Instrs {
+				st, ok := sins.(*ssa.Store)
+				if !ok || !isCellAddr(st.Addr) {
+					continue
+				}
+				for _, gb := range sf.Blocks {
+					if len(gb.Instrs) == 0 {
+						continue
+					}
+					iff, ok := gb.Instrs[len(gb.Instrs)-1].(*ssa.If)
+					if !ok {
+						continue
+					}
+					cmp, ok := iff.Cond.(*ssa.BinOp)
+					if !ok || (cmp.Op != token.NEQ && cmp.Op != token.EQL) {
+						continue
+					}
+					isNilK := func(v ssa.Value) bool { k, ok := v.(*ssa.Const); return ok && k.Value == nil }
+					var tested ssa.Value
+					if isNilK(cmp.Y) {
+						tested = cmp.X
+					} else if isNilK(cmp.X) {
+						tested = cmp.Y
+					}
+					if ld, ok := tested.(*ssa.UnOp); ok {
+						if ld.Op != token.MUL || !sameAddr(ld.X, st.Addr, 0) {
+							continue
+						}
+					} else if !helperLoadsCell(tested, st.Addr) {
+						continue
+					}
+					nonNil, isNil := gb.Succs[0], gb.Succs[1]
+					if cmp.Op == token.EQL {
+						nonNil, isNil = isNil, nonNil
+					}
+					fromNonNil := reachableBlocks(nonNil)
+					if fromNonNil[sb] {
+						continue // the store also happens when the cell is filled: not a memo
+					}
+					fromNil := reachableBlocks(isNil)
+					for _, b := range sf.Blocks {
+						if !fromNil[b] || fromNonNil[b] {
+							continue
+						}
+						for _, ins := range b.Instrs {
+							call, ok := ins.(*ssa.Call)
+							if !ok || !call.Call.IsInvoke() || call.Call.Method.Name() != "Process" {
+								continue
+							}
+							seen := map[*ssa.Function]bool{}
+							seenInv := map[*ssa.Function]bool{}
+							var walk func(fn *ssa.Function, allowInvoke bool)
+							walk = func(fn *ssa.Function, allowInvoke bool) {
+								if allowInvoke {
+									if seenInv[fn] {
+										return
+									}
+									seenInv[fn] = true
+								} else if seen[fn] || seenInv[fn] {
+									return
+								}
+								seen[fn] = true
+								for _, e := range g.vtaOut[fn] {
+									if e.Fallback {
+										continue
+									}
+									inModule := e.Callee.Pkg != nil && strings.HasPrefix(e.Callee.Pkg.Pkg.Path(), modPath) || e.Callee.Parent() != nil
+									if !inModule {
+										continue
+									}
+									isInvoke := e.Site != nil && e.Site.Common().IsInvoke()
+									if isInvoke {
+										if allowInvoke && e.Site.Common().Method.Name() == "Process" {
+											walk(e.Callee, true)
+										}
+										continue
+									}
+									walk(e.Callee, false)
+								}
+							}
+							for _, e := range g.vtaOut[sf] {
+								if e.Site == ssa.CallInstruction(call) {
+									walk(e.Callee, true)
+								}
+							}
+							out = append(out, memoSite{sf, call, seen})
+						}
+					}
+				}
+			}
+		}
+	}
+	c.memo["memoSites"] = out
+	return out
+}
+
 var ruleH4 = &Rule{
 	ID:    "H4",
 	Floor: 1,
@@ -412,116 +527,20 @@ var ruleH4 = &Rule{
 				}
 			}
 		}
-		// memo sites on SSA: a store to a cell (a planner field, or the target of a pointer kept in one) that cannot be reached from
-		// the branch on which that same cell was found non-nil; the sub-planner calls that run only on the empty-memo side.
-		for _, sf := range liveModuleFuncs(c, transpilerScopes...) {
-			if sf.Signature.Recv() == nil && sf.Parent() == nil {
-				continue
-			}
-			for _, sb := range sf.Blocks {
-				for _, sins := range sb.Instrs {
-					st, ok := sins.(*ssa.Store)
-					if !ok || !isCellAddr(st.Addr) {
-						continue
-					}
-					// the guarding branch
-					for _, gb := range sf.Blocks {
-						if len(gb.Instrs) == 0 {
-							continue
-						}
-						iff, ok := gb.Instrs[len(gb.Instrs)-1].(*ssa.If)
-						if !ok {
-							continue
-						}
-						cmp, ok := iff.Cond.(*ssa.BinOp)
-						if !ok || (cmp.Op != token.NEQ && cmp.Op != token.EQL) {
-							continue
-						}
-						isNilK := func(v ssa.Value) bool { k, ok := v.(*ssa.Const); return ok && k.Value == nil }
-						var tested ssa.Value
-						if isNilK(cmp.Y) {
-							tested = cmp.X
-						} else if isNilK(cmp.X) {
-							tested = cmp.Y
-						}
-						if ld, ok := tested.(*ssa.UnOp); ok {
-							if ld.Op != token.MUL || !sameAddr(ld.X, st.Addr, 0) {
-								continue
-							}
-						} else if !helperLoadsCell(tested, st.Addr) {
-							continue
-						}
-						nonNil, isNil := gb.Succs[0], gb.Succs[1]
-						if cmp.Op == token.EQL {
-							nonNil, isNil = isNil, nonNil
-						}
-						fromNonNil := reachableBlocks(nonNil)
-						if fromNonNil[sb] {
-							continue // the store also happens when the cell is filled: not a memo
-						}
-						fromNil := reachableBlocks(isNil)
-						// sub-planner calls on the empty side only
-						for _, b := range sf.Blocks {
-							if !fromNil[b] || fromNonNil[b] {
-								continue
-							}
-							for _, ins := range b.Instrs {
-								call, ok := ins.(*ssa.Call)
-								if !ok || !call.Call.IsInvoke() || call.Call.Method.Name() != "Process" {
-									continue
-								}
-								seen := map[*ssa.Function]bool{}
-								seenInv := map[*ssa.Function]bool{}
-								var offenders []string
-								var walk func(fn *ssa.Function, allowInvoke bool)
-								walk = func(fn *ssa.Function, allowInvoke bool) {
-									if allowInvoke {
-										if seenInv[fn] {
-											return
-										}
-										seenInv[fn] = true
-									} else if seen[fn] || seenInv[fn] {
-										return
-									}
-									if !seen[fn] && readsTo[fn] {
-										offenders = append(offenders, ssaName(fn))
-									}
-									seen[fn] = true
-									for _, e := range g.vtaOut[fn] {
-										if e.Fallback {
-											continue
-										}
-										inModule := e.Callee.Pkg != nil && strings.HasPrefix(e.Callee.Pkg.Pkg.Path(), modPath) || e.Callee.Parent() != nil
-										if !inModule {
-											continue
-										}
-										isInvoke := e.Site != nil && e.Site.Common().IsInvoke()
-										if isInvoke {
-											if allowInvoke && e.Site.Common().Method.Name() == "Process" {
-												walk(e.Callee, true)
-											}
-											continue
-										}
-										walk(e.Callee, false)
-									}
-								}
-								for _, e := range g.vtaOut[sf] {
-									if e.Site == ssa.CallInstruction(call) {
-										walk(e.Callee, true)
-									}
-								}
-								key := fmt.Sprintf("%s memoises the statement of %s", ssaName(sf), c.fieldOfCall(call))
-								sort.Strings(offenders)
-								if len(offenders) == 0 {
-									obls = append(obls, Obl{Key: key, Pos: c.pos(call.Pos()), Status: OK, Msg: fmt.Sprintf("%d functions reachable, none reads the window end", len(seen))})
-								} else {
-									obls = append(obls, Obl{Key: key, Pos: c.pos(call.Pos()), Status: Violation, Path: offenders,
-										Msg: "the memoised statement is built by code that reads PlannerContext.To: its upper bound is frozen at the first execution, so a live tail stops seeing series/rows newer than that"})
-								}
-							}
-						}
-					}
+		for _, ms := range c.memoSites() {
+			var offenders []string
+			for fn := range ms.reach {
+				if readsTo[fn] {
+					offenders = append(offenders, ssaName(fn))
 				}
+			}
+			key := fmt.Sprintf("%s memoises the statement of %s", ssaName(ms.fn), c.fieldOfCall(ms.call))
+			sort.Strings(offenders)
+			if len(offenders) == 0 {
+				obls = append(obls, Obl{Key: key, Pos: c.pos(ms.call.Pos()), Status: OK, Msg: fmt.Sprintf("%d functions reachable, none reads the window end", len(ms.reach))})
+			} else {
+				obls = append(obls, Obl{Key: key, Pos: c.pos(ms.call.Pos()), Status: Violation, Path: offenders,
+					Msg: "the memoised statement is built by code that reads PlannerContext.To: its upper bound is frozen at the first execution, so a live tail stops seeing series/rows newer than that"})
 			}
 		}
 		// dedupe by key
